@@ -3,6 +3,11 @@
 package p2psync
 
 import (
+	"fmt"
+	"sort"
+	"strings"
+	"time"
+
 	"github.com/bitcoin-sv/block-headers-service/internal/chaincfg"
 	"github.com/bitcoin-sv/block-headers-service/internal/chaincfg/chainhash"
 	"github.com/bitcoin-sv/block-headers-service/internal/wire"
@@ -78,15 +83,23 @@ func VerifDump(sm *SyncManager) map[string]any {
 	if sm.syncPeer != nil {
 		out["syncPeer"] = sm.syncPeer.Addr()
 		out["violations"] = sm.syncPeerState.violations
+		// (what handleCheckSyncPeer decides on besides the violations)
+		out["syncPeerFresh"] = sm.syncPeerState.ticks == 0
+		out["sinceLastBlock"] = int(time.Since(sm.syncPeerState.lastBlockTime) / time.Second)
 	} else {
 		out["syncPeer"] = ""
 	}
 	cand := 0
-	for _, st := range sm.peerStates {
+	var per []string
+	for p, st := range sm.peerStates {
 		if st.SyncCandidate {
 			cand++
 		}
+		// the service's view of each peer: candidate flag and the height it believes the peer has
+		per = append(per, fmt.Sprintf("%s:c=%v,h=%d", p.Addr(), st.SyncCandidate, p.LastBlock()))
 	}
+	sort.Strings(per)
 	out["candidates"] = cand
+	out["peerView"] = strings.Join(per, ";")
 	return out
 }
